@@ -6,7 +6,7 @@ CONSTANTS
   Bases = {"One", "Mid", "MaxM1", "Max"}
   Tags = {0}
   Ads = {0}
-  Muts = {"ad", "flip", "foreign"}
+  Muts = {"ad", "flip", "foreign", "shortbuf"}
 INVARIANTS CounterNeverZero Lockstep PrefixAuth TagDelivered
 PROPERTIES RejectIsStutter
 POSTCONDITION Accepted
